@@ -29,11 +29,11 @@ TABLE = [(n, sf.A(lambda r: sf.rq(r, -6, 6)), sf.F1(n)) for n in ["erf", "erfc",
 
 def gen(chk, mpmath, rng):
     mp = mpmath.mp
-    for item in sf.samereal(chk, mpmath, rng, TABLE, 8, chk.pick(220, 10000), PROP, hiprec=0.08):
+    for item in sf.samereal(chk, mpmath, rng, TABLE, 8, chk.pick(220, 3000), PROP, hiprec=0.08):
         yield item
     # dense argument sweeps at fixed precisions: the switch points between series, cancellation-guarded and asymptotic
     # evaluation sit at arguments of size sqrt(p) (erf family) and p (exponential integrals)
-    for P in chk.pick([rng.choice([100, 120, 150])], [53, 120, 250, 400, 800]):
+    for P in chk.pick([rng.choice([100, 120, 150])], [53, 120, 250, 400]):
         den = 16
         off = Fr(rng.randint(0, 7), 8 * den)
         top = int(1.3 * (P ** 0.5)) + 2
@@ -45,7 +45,7 @@ def gen(chk, mpmath, rng):
         for fname in ("e1", "ei"):
             for item in sf.sweep(mpmath, fname, sf.F1(fname), grid2, P, 8, PROP):
                 yield item
-    for i in range(chk.pick(160, 5000)):
+    for i in range(chk.pick(160, 2000)):
         p = rng.choice([20, 53, 53, 100, 200]); mp.prec = p
         c = rng.random()
         try:
